@@ -33,7 +33,7 @@ TIERS = {
     "quick": {"shards": 8, "budget_s": 40},
     "thorough": {"shards": 16, "budget_s": 480},
 }
-MIN_EVENTS = {"quick": 300, "thorough": 3000}
+MIN_EVENTS = {"quick": 1200, "thorough": 3000}
 DECIDING = {"from_string"}
 RULE = (
     "random ModelSpecs (1-8 transition variables, shocks, parameters, optional measurement block, exogenous variables, "
@@ -358,7 +358,7 @@ def shard(c):
     if c.shard == 0:
         for case in directed_cases():
             run_case(c, case)
-    n = c.scale(450, 12000)
+    n = c.scale(1800, 12000)
     for i in range(n):
         if c.out_of_time():
             break
